@@ -92,6 +92,8 @@ struct Exec {
 	void finish();
 };
 
+std::string verif_dir(); // root of the verification tree (golden corpus, known findings)
+
 // generation helpers -------------------------------------------------------
 struct GenCtx {
 	Rng rng;
